@@ -300,8 +300,16 @@ func (r *Report) Finish(verifDir, tier string, seed int, wall float64, extra map
 // pathString renders a witness path.
 func (e *Engine) pathString(p []ssa.Instruction) string {
 	var parts []string
+	last := ""
 	for _, in := range p {
-		parts = append(parts, e.InstrPos(in))
+		s := e.InstrPos(in)
+		if s != last {
+			parts = append(parts, s)
+		}
+		last = s
+	}
+	if len(parts) > 7 {
+		parts = append(append(append([]string{}, parts[:3]...), "…"), parts[len(parts)-3:]...)
 	}
 	return strings.Join(parts, " -> ")
 }
